@@ -432,7 +432,7 @@ def _weighted(*pairs):
 
 @st.composite
 def _segment(draw):
-    kind = draw(_weighted(("ok", 6), ("retry-ok", 8), ("boundary", 2), ("exhaust", 2), ("status", 4), ("corrupt", 4), ("garbage", 4), ("mixed", 4), ("stall", 2)))
+    kind = draw(_weighted(("ok", 6), ("retry-ok", 8), ("boundary", 2), ("exhaust", 2), ("status", 4), ("corrupt", 6), ("garbage", 4), ("mixed", 4), ("stall", 2)))
     faults = lambda lo, hi: [list(o) for o in draw(st.lists(_FAULT, min_size=lo, max_size=hi))]  # noqa: E731
     if kind == "ok":
         return [draw(_OK)]
@@ -457,7 +457,7 @@ def _segment(draw):
 
 @st.composite
 def _case(draw):
-    big = draw(_weighted((False, 5), (True, 1)))
+    big = draw(_weighted((False, 4), (True, 1)))
     if big:
         meta = draw(_weighted((False, 3), (True, 1)))
         lines = draw(st.sampled_from([50000, 50001, 50001, 100001]))
@@ -523,7 +523,7 @@ def _case(draw):
             last_crash_point = 7
             if fmt == "plain":
                 fmt = draw(st.sampled_from(disk.FORMATS))
-            arch = draw(_weighted((["correct"], 5), (["corrupt"], 2), (["truncated", 700], 1), (["truncated", 1023], 1), (["longer", 3], 1)))
+            arch = draw(_weighted((["correct"], 5), (["corrupt"], 3), (["truncated", 700], 1), (["truncated", 1023], 1), (["longer", 3], 1)))
             if doc[0] == "correct":
                 doc = ["missing"]
             elif doc[0] != "missing":
@@ -552,7 +552,7 @@ def _case(draw):
         "script": script[:12],
         "earlier": earlier,
         "probe_lines": sorted(set(draw(st.lists(st.integers(0, 1024), max_size=3)))),
-        "tools": draw(_weighted(("default", 5), ("shims", 2), ("none", 1))),
+        "tools": draw(_weighted(("default", 5), ("shims", 2), ("none", 2))),
     }
     return _normalise(case)
 
